@@ -217,6 +217,9 @@ class QueryBuilder:
                     d = entity(self.sel_exprs[0], *conds)
                 else:
                     d = set_of(self.sel_exprs, *conds)
+                if q.get("notdesc"):      # not_ applied to the descriptor itself
+                    from entity_query_language import not_
+                    d = not_(d)
                 self.query = quant(d)
         return self.query
 
